@@ -426,4 +426,276 @@ theorem fold_offset_scale_last (cubic : Bool) (ls : List Bytes) (st st' : HState
             have hne : List.filterMap scaleOf ls ≠ [] := by intro hh; simp [hh] at hl
             rw [List.getLast?_cons_of_ne_nil hne] <;> simp [hl]
 
+/-! ## printed numbers are read back -/
+
+/-- decimal digits of `n`, most significant first (no leading zeros) -/
+def dec (n : Nat) : Bytes := if n < 10 then [48 + n] else dec (n / 10) ++ [48 + n % 10]
+termination_by n
+decreasing_by omega
+
+def digitsVal (ds : Bytes) (v : Nat) : Nat := ds.foldl (fun a d => a * 10 + (d - 48)) v
+
+theorem scanDigits_digits (ds : Bytes) (hds : ∀ d ∈ ds, isdigit d = true) (v k : Nat) (rest : Bytes) :
+    scanDigits v k (ds ++ rest) = scanDigits (digitsVal ds v) (k + ds.length) rest := by
+  induction ds generalizing v k with
+  | nil => simp [digitsVal]
+  | cons d ds ih =>
+    have hd : isdigit d = true := hds d (by simp)
+    have := ih (fun x hx => hds x (by simp [hx])) (v * 10 + (d - 48)) (k + 1)
+    simp only [List.cons_append, scanDigits, hd, if_true, digitsVal, List.foldl_cons, List.length_cons] at this ⊢
+    rw [this]; congr 1; omega
+
+theorem scanDigits_stop (v k : Nat) (rest : Bytes) (h : ∀ c t, rest = c :: t → isdigit c = false) :
+    scanDigits v k rest = ⟨v, k, rest⟩ := by
+  cases rest with
+  | nil => rfl
+  | cons c t => simp [scanDigits, h c t rfl]
+
+theorem dec_digits (n : Nat) : ∀ d ∈ dec n, isdigit d = true := by
+  induction n using Nat.strong_induction_on with
+  | _ n ih =>
+    unfold dec
+    split
+    · intro d hd; simp at hd; subst hd; simp [isdigit]; omega
+    · intro d hd
+      simp at hd
+      rcases hd with hd | hd
+      · exact ih (n / 10) (by omega) d hd
+      · subst hd; simp [isdigit]; omega
+
+theorem dec_val (n v : Nat) : digitsVal (dec n) v = v * 10 ^ (dec n).length + n := by
+  induction n using Nat.strong_induction_on generalizing v with
+  | _ n ih =>
+    unfold dec
+    split
+    · simp [digitsVal]
+    · simp only [digitsVal, List.foldl_append, List.foldl_cons, List.foldl_nil, List.length_append, List.length_cons, List.length_nil]
+      have := ih (n / 10) (by omega) v
+      unfold digitsVal at this
+      rw [this]
+      have e : 48 + n % 10 - 48 = n % 10 := by omega
+      rw [e, Nat.pow_succ]
+      have := Nat.div_add_mod n 10
+      nlinarith
+
+theorem dec_ne_nil (n : Nat) : dec n ≠ [] := by
+  unfold dec; split <;> simp
+
+theorem dec_head_digit (n : Nat) : ∃ c t, dec n = c :: t ∧ isdigit c = true := by
+  cases h : dec n with
+  | nil => exact absurd h (dec_ne_nil n)
+  | cons c t => exact ⟨c, t, rfl, dec_digits n c (by rw [h]; simp)⟩
+
+/-- reading back a printed number: `scanDigits` over `dec n` followed by a non-digit -/
+theorem scanDigits_dec (n : Nat) (rest : Bytes) (h : ∀ c t, rest = c :: t → isdigit c = false) :
+    scanDigits 0 0 (dec n ++ rest) = ⟨n, (dec n).length, rest⟩ := by
+  rw [scanDigits_digits _ (dec_digits n), dec_val, scanDigits_stop _ _ _ h]; simp
+
+/-! ## the canonical file of every admissible size -/
+
+deriving instance DecidableEq for F64
+deriving instance DecidableEq for HState
+deriving instance DecidableEq for Except
+
+/-- the two comment lines of the canonical file -/
+def offsetLine : Bytes := str "# Offset -108"
+def scaleLine : Bytes := str "# Scale 0.003"
+/-- the state after them: offset −108, scale 0.003 (correctly rounded) -/
+def stCanon : HState := { HState.init with offset := F64.fin true 108 0, scale := F64.fin false 6917529027641082 (-61) }
+
+theorem canon_fold (cubic : Bool) : [offsetLine, scaleLine].foldlM (procLine cubic) HState.init = .ok stCanon := by
+  cases cubic <;> decide +kernel
+
+/-- the raster-size line `w h` is read back -/
+theorem sizeLine_dec (w h : Nat) (hw : w < 2 ^ 31) (hh : h < 2 ^ 31) : sizeLine (dec w ++ 32 :: dec h) = some ((w : Int), (h : Int)) := by
+  obtain ⟨c, t, hc, hd⟩ := dec_head_digit w
+  obtain ⟨c', t', hc', hd'⟩ := dec_head_digit h
+  have hsp : ∀ x : Nat, isdigit x = true → isspace x = false := by
+    intro x hx; simp [isdigit, isspace] at hx ⊢; omega
+  have hsg : ∀ x : Nat, isdigit x = true → x ≠ 45 ∧ x ≠ 43 := by
+    intro x hx; simp [isdigit] at hx; omega
+  -- first number
+  have sk1 : skipws (dec w ++ 32 :: dec h) = dec w ++ 32 :: dec h := by
+    rw [hc]; simp [skipws, hsp c hd]
+  have ss1 : stripSign (dec w ++ 32 :: dec h) = (false, dec w ++ 32 :: dec h) := by
+    rw [hc]
+    obtain ⟨n1, n2⟩ := hsg c hd
+    unfold stripSign
+    split
+    · rename_i q heq; simp at heq; omega
+    · rename_i q heq; simp at heq; omega
+    · rfl
+  have sd1 : scanDigits 0 0 (dec w ++ 32 :: dec h) = ⟨w, (dec w).length, 32 :: dec h⟩ :=
+    scanDigits_dec w _ (by intro c t h; simp at h; rw [← h.1]; decide)
+  have ne1 : (dec w ++ 32 :: dec h).isEmpty = false := by rw [hc]; rfl
+  have cnt1 : (dec w).length ≠ 0 := by rw [hc]; simp
+  have g1 : numGetInt (dec w ++ 32 :: dec h) = (.ok (w : Int), 32 :: dec h) := by
+    unfold numGetInt
+    simp only [sk1, ne1, ss1, sd1, Bool.false_eq_true, if_false, cnt1]
+    rw [if_neg (by omega), if_neg (by omega)]
+  -- second number
+  have sk2 : skipws (32 :: dec h) = dec h := by
+    rw [hc']
+    have : isspace 32 = true := by decide
+    simp [skipws, List.dropWhile, this, hsp c' hd']
+  have ss2 : stripSign (dec h) = (false, dec h) := by
+    rw [hc']
+    obtain ⟨n1, n2⟩ := hsg c' hd'
+    unfold stripSign
+    split
+    · rename_i q heq; simp at heq; omega
+    · rename_i q heq; simp at heq; omega
+    · rfl
+  have sd2 : scanDigits 0 0 (dec h) = ⟨h, (dec h).length, []⟩ := by
+    have := scanDigits_dec h [] (by intro c t h; cases h)
+    simpa using this
+  have ne2 : (dec h).isEmpty = false := by rw [hc']; rfl
+  have cnt2 : (dec h).length ≠ 0 := by rw [hc']; simp
+  have g2 : (numGetInt (32 :: dec h)).1 = .ok (h : Int) := by
+    unfold numGetInt
+    simp only [sk2, ne2, ss2, sd2, Bool.false_eq_true, if_false, cnt2]
+    rw [if_neg (by omega), if_neg (by omega)]
+  unfold sizeLine
+  rw [g1]
+  simp only [g2]
+
+/-- the maxval token `65535` followed by a line feed and any data -/
+theorem readMaxval_canon (st : HState) (w h : Int) (consumed : Nat) (data : Bytes) :
+    readMaxval st w h consumed (str "65535" ++ 10 :: data) = .ok { st, w, h, maxval := 65535, tell := some (consumed + 5) } := by
+  have e5 : str "65535" = [54, 53, 53, 51, 53] := by decide
+  have sd : scanDigits 0 0 (str "65535" ++ 10 :: data) = ⟨65535, 5, 10 :: data⟩ := by
+    rw [e5]; simp [scanDigits, isdigit]
+  have sk : skipws (str "65535" ++ 10 :: data) = str "65535" ++ 10 :: data := by
+    have : str "65535" = [54, 53, 53, 51, 53] := by decide
+    rw [this]; rfl
+  have ss : stripSign (str "65535" ++ 10 :: data) = (false, str "65535" ++ 10 :: data) := by
+    have : str "65535" = [54, 53, 53, 51, 53] := by decide
+    rw [this]; rfl
+  have ne : (str "65535" ++ 10 :: data).isEmpty = false := by
+    have : str "65535" = [54, 53, 53, 51, 53] := by decide
+    rw [this]; rfl
+  have g : numGetUnsigned (str "65535" ++ 10 :: data) = (.ok 65535, 10 :: data) := by
+    unfold numGetUnsigned
+    simp only [sk, ne, ss, sd, Bool.false_eq_true, if_false]
+    norm_num
+  unfold readMaxval
+  rw [g]
+  have l5 : (str "65535").length = 5 := by decide
+  simp [l5]
+
+
+theorem dec_length_le (k n : Nat) (hk : 1 ≤ k) (h : n < 10 ^ k) : (dec n).length ≤ k := by
+  induction k generalizing n with
+  | zero => omega
+  | succ k ih =>
+    unfold dec
+    split
+    · simp
+    · rename_i h10
+      by_cases hk0 : k = 0
+      · subst hk0; simp at h; omega
+      · have : n / 10 < 10 ^ k := by
+          rw [Nat.pow_succ] at h
+          exact Nat.div_lt_of_lt_mul (by omega)
+        have := ih (n / 10) (by omega) this
+        simp; omega
+
+/-- the canonical file: magic, `# Offset -108`, `# Scale 0.003`, `w h`, `65535`, one line feed, the data -/
+def canonFile (w h : Nat) (data : Bytes) : Bytes :=
+  magic ++ 10 :: (joinLines [offsetLine, scaleLine] ++ ((dec w ++ 32 :: dec h) ++ 10 :: (str "65535" ++ 10 :: data)))
+
+/-- length of its header (everything before the data) -/
+def canonHeaderLen (w h : Nat) : Nat := 39 + (dec w).length + (dec h).length
+
+theorem joinLines_two (a b : Bytes) : joinLines [a, b] = a ++ 10 :: (b ++ [10]) := by simp [joinLines]
+
+theorem canonFile_length (w h : Nat) (data : Bytes) : (canonFile w h data).length = canonHeaderLen w h + data.length := by
+  have m : magic.length = 2 := by decide
+  have o : offsetLine.length = 13 := by decide
+  have s : scaleLine.length = 13 := by decide
+  have f : (str "65535").length = 5 := by decide
+  unfold canonFile canonHeaderLen
+  rw [joinLines_two]
+  simp only [List.length_append, List.length_cons, List.length_nil, m, o, s, f]
+  omega
+
+theorem canonical_scan (cubic : Bool) (w h : Nat) (hw : w < 2 ^ 31) (hh : h < 2 ^ 31) (data : Bytes) :
+    scan cubic (canonFile w h data) =
+      .ok { st := stCanon, w := w, h := h, maxval := 65535, tell := some (canonHeaderLen w h - 1) } := by
+  obtain ⟨c, t, hc, hd⟩ := dec_head_digit w
+  have h10 : 10 ∉ dec w ++ 32 :: dec h := by
+    intro hm
+    rcases List.mem_append.mp hm with hm | hm
+    · have := dec_digits w 10 hm; simp [isdigit] at this
+    · rcases List.mem_cons.mp hm with hm | hm
+      · omega
+      · have := dec_digits h 10 hm; simp [isdigit] at this
+  have hc35 : c ≠ 35 := by intro e; subst e; simp [isdigit] at hd
+  have hls : ∀ l ∈ [offsetLine, scaleLine], 10 ∉ l ∧ (l = [] ∨ ∃ t, l = 35 :: t) := by
+    intro l hl
+    simp at hl
+    rcases hl with rfl | rfl
+    · exact ⟨by decide, Or.inr ⟨offsetLine.tail, by decide⟩⟩
+    · exact ⟨by decide, Or.inr ⟨scaleLine.tail, by decide⟩⟩
+  unfold canonFile
+  rw [scan_structured cubic [offsetLine, scaleLine] hls (dec w ++ 32 :: dec h) _ h10 c (t ++ 32 :: dec h) (by rw [hc]; rfl) hc35]
+  rw [canon_fold cubic]
+  simp only [sizeLine_dec w h hw hh]
+  rw [readMaxval_canon]
+  have m : magic.length = 2 := by decide
+  have o : offsetLine.length = 13 := by decide
+  have s : scaleLine.length = 13 := by decide
+  rw [joinLines_two]
+  simp only [canonHeaderLen, List.length_append, List.length_cons, List.length_nil, m, o, s]
+  have e : 2 + 1 + (13 + (13 + (0 + 1) + 1)) + ((dec w).length + ((dec h).length + 1)) + 1 + 5 = 39 + (dec w).length + (dec h).length - 1 := by omega
+  rw [e]
+
+
+/-- **every canonical file of every admissible size**: for every even width in [2, 2^31), every odd height in [3, 2^31)
+    and every data section, the file `P5 / # Offset -108 / # Scale 0.003 / w h / 65535 / data` is accepted if and only if its
+    length is exactly `header + 2·w·h` (unbounded arithmetic: also beyond 2^32 and 2^64/pixel) — with the announced width,
+    height, offset, scale and `datastart = header length`; with any other length the exception is "File has the wrong
+    length" -/
+theorem canonical_file (cubic : Bool) (w h : Nat) (hw2 : 2 ≤ w) (hwe : w % 2 = 0) (hwm : w < 2 ^ 31)
+    (hh3 : 3 ≤ h) (hho : h % 2 = 1) (hhm : h < 2 ^ 31) (data : Bytes) (len : Nat) (hlen : len < 2 ^ 64) :
+    (len = canonHeaderLen w h + 2 * w * h →
+      parse cubic (canonFile w h data) len = .ok
+        { offset := F64.fin true 108 0, scale := F64.fin false 6917529027641082 (-61), maxerror := HState.init.maxerror,
+          rmserror := HState.init.rmserror, description := HState.init.description, datetime := HState.init.datetime,
+          w := w, h := h, datastart := canonHeaderLen w h }) ∧
+    (len ≠ canonHeaderLen w h + 2 * w * h → parse cubic (canonFile w h data) len = .error .wrongLength) := by
+  have hs := canonical_scan cubic w h hwm hhm data
+  have hl10w := dec_length_le 10 w (by norm_num) (by omega)
+  have hl10h := dec_length_le 10 h (by norm_num) (by omega)
+  have hpos : 1 ≤ canonHeaderLen w h := by unfold canonHeaderLen; omega
+  have hcoded := lengthOKCoded_iff (canonHeaderLen w h - 1 + 1) (w : Int) (h : Int) len ⟨by omega, by omega⟩ ⟨by omega, by omega⟩
+    (by unfold canonHeaderLen; omega) hlen
+  simp only [Int.toNat_natCast] at hcoded
+  have e1 : canonHeaderLen w h - 1 + 1 = canonHeaderLen w h := by omega
+  have o1 : F64.eq stCanon.offset Decimal.maxFinite = false := by decide +kernel
+  have o2 : F64.eq stCanon.scale 0 = false := by decide +kernel
+  have o3 : F64.lt stCanon.scale 0 = false := by decide +kernel
+  have d1 : (2:Int) ≤ (w:Int) := by omega
+  have d2 : (2:Int) ≤ (h:Int) := by omega
+  have d3 : (w:Int) % 2 = 0 := by omega
+  have d4 : (h:Int) % 2 = 1 := by omega
+  constructor
+  · intro hlen'
+    unfold parse
+    rw [hs]
+    simp only []
+    rw [validate_ok_iff]
+    refine ⟨rfl, o1, o2, o3, d1, d2, d3, d4, canonHeaderLen w h - 1, rfl, ?_, ?_⟩
+    · exact hcoded.mpr (by rw [e1]; omega)
+    · simp [hdrOf, stCanon, e1]
+  · intro hne
+    unfold parse
+    rw [hs]
+    simp only []
+    rw [(validate_error_iff _ len).2.2.2.2.2.2.2.1]
+    refine ⟨rfl, o1, o2, o3, d2, d1, d3, d4, Or.inr ⟨canonHeaderLen w h - 1, rfl, ?_⟩⟩
+    cases hc : lengthOKCoded (canonHeaderLen w h - 1 + 1) (w : Int) (h : Int) len with
+    | false => rfl
+    | true => exact absurd (by have := hcoded.mp hc; rw [e1] at this; omega) hne
+
 end GeoVerif.GeoidHeader
